@@ -17,6 +17,8 @@ type genFile struct {
 var files = []genFile{
 	{"Numeric.lean", genNumeric},
 	{"NumericSimp.lean", genNumericSimp},
+	{"EncTags.lean", genEncTags},
+	{"EncBuiltins.lean", genEncBuiltins},
 }
 
 func main() {
